@@ -63,6 +63,9 @@ type Chain struct {
 	Logger log.Logger
 }
 
+// MempoolMaxTx is the size of the application mempool (the daemon's default configuration is 10; operators may raise it).
+var MempoolMaxTx = 10
+
 type appOpts map[string]interface{}
 
 func (o appOpts) Get(k string) interface{} { return o[k] }
@@ -119,7 +122,7 @@ func NewChain(chainID string, kr *Keyring, nodeVal int, db dbm.DB) (*Chain, erro
 func (c *Chain) open() error {
 	opts := appOpts{"goat.geth": c.sock, "priv_validator_key_file": "priv_validator_key.json", "home": c.dir}
 	a, err := app.New(c.Logger, c.DB, nil, true, opts,
-		baseapp.SetChainID(c.ChainID), baseapp.SetMempool(mempool.NewSenderNonceMempool(mempool.SenderNonceMaxTxOpt(10))))
+		baseapp.SetChainID(c.ChainID), baseapp.SetMempool(mempool.NewSenderNonceMempool(mempool.SenderNonceMaxTxOpt(MempoolMaxTx))))
 	if err != nil {
 		return err
 	}
@@ -302,8 +305,14 @@ func (c *Chain) Process(b *Block) (*abci.ResponseProcessProposal, error) {
 }
 
 // Finalize executes the block. On error the instance must be restarted (as a real node would crash).
-func (c *Chain) Finalize(b *Block) (*abci.ResponseFinalizeBlock, error) {
-	res, err := c.App.FinalizeBlock(&abci.RequestFinalizeBlock{
+func (c *Chain) Finalize(b *Block) (res *abci.ResponseFinalizeBlock, err error) {
+	// a panic that escapes FinalizeBlock takes a real node down: report it like a failed block (the chain stops here)
+	defer func() {
+		if p := recover(); p != nil {
+			res, err = nil, fmt.Errorf("panic in FinalizeBlock: %v", p)
+		}
+	}()
+	res, err = c.App.FinalizeBlock(&abci.RequestFinalizeBlock{
 		Txs: b.Txs, DecidedLastCommit: c.commitInfo(b.Votes), Misbehavior: b.Misbehavior,
 		Hash: b.Hash(c.ChainID), Height: b.Height, Time: b.Time, ProposerAddress: c.KR.Vals[b.Proposer].Addr,
 	})
